@@ -139,11 +139,10 @@ impl FormatStringParser<'_> {
     }
 
     fn peek(&self, count: usize) -> Result<&str, Box<dyn Error>> {
-        if self.string.len() < count {
-            return Err("Unexpected EOF".into());
-        }
-
-        Ok(&self.string[0..count])
+        // get() also fails if `count` bytes would end inside a multi-byte character
+        self.string
+            .get(0..count)
+            .ok_or_else(|| "Unexpected EOF".into())
     }
 
     fn advance_one(&mut self) -> Result<char, Box<dyn Error>> {
